@@ -47,9 +47,27 @@ class StmtMixin:
         return True
 
     def s_Import(self, st):
+        for a in st.names:
+            local = a.asname or a.name.split(".")[0]
+            q = a.name if a.asname else a.name.split(".")[0]
+            self.frame.env[local] = Val(callee=[("ext", q)], tags=["module:" + q])
         return True
 
-    s_ImportFrom = s_Import
+    def s_ImportFrom(self, st):
+        mod = st.module or ""
+        for a in st.names:
+            local = a.asname or a.name
+            if mod.startswith("mabwiser"):
+                target = self.prog.modules.get(mod.split(".", 1)[1]) if "." in mod else None
+                if target is not None and a.name in target.classes:
+                    self.frame.env[local] = Val(callee=[("class", target.classes[a.name])],
+                                                const=("class", a.name))
+                    continue
+                if target is not None and a.name in target.functions:
+                    self.frame.env[local] = Val(callee=[("func", target.functions[a.name])])
+                    continue
+            self.frame.env[local] = Val(callee=[("ext", mod + "." + a.name)])
+        return True
 
     def s_Global(self, st):
         raise AnalysisError("global statement at %s" % self.prog.loc(self.frame.fn, st))
